@@ -149,7 +149,7 @@ func TestHeld(t *testing.T) {
 		out.Begin(id)
 		rng := rand.New(rand.NewSource(seed*104729 + int64(ci)))
 		k, left := RunCase(t, lg, cfg, seed*31+int64(ci), func(k *Case) {
-			if hc.CloseVariants {
+			if hc.CloseVariants && !hc.Partial {
 				k.CloseBy = []string{"", "oversize", "badframe"}[rng.Intn(3)]
 			}
 			held := map[int]bool{}
